@@ -472,10 +472,28 @@ def update_case(draw):
     if draw(st.integers(0, 9)) < 3:
         opts["default"] = draw(st.sampled_from([None, 0, "D", {"q": {"r": 1}}, [1]]))
     rec = draw(st.booleans())
+    if mode == "simple" and opts and draw(st.integers(0, 4)):
+        opts = {}     # (options with a simple update are an error of construction: kept, but rare)
     case = {"ctx": ctx, "sub": sub, "mode": mode, "opts": opts, "rec": rec,
             "with_context": draw(st.sampled_from([True, True, True, False]))}
     if mode == "simple":
-        case["update"] = draw(st.sampled_from([5, None, {"n": {"m": 1}}, [1, 2], {}, 0, False]))
+        # (dictionaries over the keys of the contexts: a recursive update merges them at every depth)
+        case["update"] = draw(st.sampled_from([5, None, {"n": {"m": 1}}, [1, 2], {}, 0, False,
+                                               {"a": {"b": 1}}, {"a": {"a": {"x": 0}}, "b": {"c": 2}}, {"x": {"y": {"a": 3}}, "a": {"c": {"b": 4}}},
+                                               {"b": {"a": {"c": 5}}, "c": 6}]))
+        if isinstance(case["update"], dict) and case["update"] and draw(st.booleans()):
+            # the context already holds, where the update goes, a dictionary of the same shape with other
+            # values and one more item at every level: a recursive update must keep those items
+            def planted(d):
+                out = dict((k, planted(v) if isinstance(v, dict) else "old") for k, v in d.items())
+                out["y"] = "kept"
+                return out
+            cur = ctx
+            for k in sub[:-1]:
+                if not isinstance(cur.get(k), dict):
+                    cur[k] = {}
+                cur = cur[k]
+            cur[sub[-1]] = planted(case["update"])
     elif mode == "val":
         case["src"] = biased_path(draw, ctx, min_size=1) or ["b"]
     else:
